@@ -2,6 +2,7 @@ package lint
 
 import (
 	"fmt"
+	"os"
 	"go/constant"
 	"go/token"
 	"go/types"
@@ -63,8 +64,32 @@ func (m *Model) ruleCOMMIT(r *Results) {
 		}
 		return x.Block().Dominates(y.Block())
 	}
-	// (1) mutex held across Begin..Commit/Rollback
-	r.check(lock != nil && deferUnlock != nil && !explicitUnlock && dom(lock, begin) && dom(deferUnlock, begin), rule, name+" / mutex spans the transaction", m.instrPos(begin),
+	// (1) mutex held across Begin..Commit/Rollback (decided by the lockset engine, so that lock helpers are understood)
+	spans := true
+	{
+		fl := m.flowLocks(fn, lockset{})
+		holds := func(in ssa.Instruction) bool {
+			for l := range fl.mustAt[in] {
+				if l.Field == a.BucketMutex {
+					return true
+				}
+			}
+			return false
+		}
+		for _, in := range []ssa.Instruction{begin, cb, commit, rollback} {
+			if !holds(in) {
+				spans = false
+			}
+		}
+		for _, op := range fl.ops {
+			if !op.Acquire && !op.Deferred && op.Lock.Field == a.BucketMutex {
+				spans = false // an early, non-deferred unlock
+			}
+		}
+	}
+	_, _, _ = lock, deferUnlock, explicitUnlock
+	_ = dom
+	r.check(spans, rule, name+" / mutex spans the transaction", m.instrPos(begin),
 		"bucket mutex locked before Begin and released only by a deferred Unlock", "the bucket mutex is not held from before Begin until after Commit/Rollback (lock, deferred unlock, no early unlock): transactions of different handles could interleave")
 	// (2) closed flag tested before Begin
 	{
@@ -444,7 +469,9 @@ func (m *Model) ruleCAS(r *Results) {
 					continue
 				}
 				if dw.Site.Fn == K {
-					wps = append(wps, writePoint{dw.Site.Call, dw.Site})
+					for _, ps := range dw.Parts {
+						wps = append(wps, writePoint{ps.Call, ps})
+					}
 				} else if m.reachableLocal(K)[dw.Site.Fn] {
 					// the call in K that leads to the helper
 					m.eachCall(K, func(c ssa.CallInstruction) {
@@ -468,11 +495,9 @@ func (m *Model) ruleCAS(r *Results) {
 				// build the cut: pass edges and exempt edges
 				c := newCut()
 				var sinks, problems []string
-				for _, iff := range allIfs(K) {
-					cd := condOf(iff)
-					eq, isEq := cd.equalEdge()
-					if !isEq {
-						// AddOnly-style flag test: (opt & AddOnly) != 0 is an NEQ with zero: handled below as equality with 0
+				for _, d := range m.decisions(K, fr) {
+					cd := d.C
+					if _, isEq := cd.equalEdge(); !isEq {
 						continue
 					}
 					x, y := cd.X, cd.Y
@@ -483,16 +508,7 @@ func (m *Model) ruleCAS(r *Results) {
 							other = y
 						}
 						if _, isPtr := other.Type().Underlying().(*types.Pointer); isPtr {
-							rv, _ := m.resolve(other, fr)
-							if al, ok := rv.(*ssa.Alloc); ok {
-								if st := singleStore(al); st != nil && stripConv(st.Val) == ssa.Value(P) {
-									c.cutEdge(iff.Block(), eq) // statically never taken for this entry point, harmless
-								}
-							} else if isNilConst(rv) {
-								c.cutEdge(iff.Block(), eq)
-							} else {
-								c.cutEdge(iff.Block(), eq)
-							}
+							d.cutEqual(c)
 						}
 						// helper predicate result == nil
 						if call, ok := stripConv(other).(*ssa.Call); ok {
@@ -507,7 +523,7 @@ func (m *Model) ruleCAS(r *Results) {
 									}
 								}
 								if exOK && expIsP {
-									c.cutEdge(iff.Block(), eq)
+									d.cutEqual(c)
 									sinks = append(sinks, "predicate helper "+call.Common().StaticCallee().Name())
 								} else if expIsP {
 									problems = append(problems, why)
@@ -523,17 +539,14 @@ func (m *Model) ruleCAS(r *Results) {
 							other = y
 						}
 						if isP(other) {
-							c.cutEdge(iff.Block(), eq)
+							d.cutEqual(c)
 							continue
 						}
-						if bo, ok := stripConv(other).(*ssa.BinOp); ok && bo.Op == token.AND && addOnly != nil {
+						ro, _ := m.resolve(other, fr)
+						if bo, ok := stripConv(ro).(*ssa.BinOp); ok && bo.Op == token.AND && addOnly != nil {
 							if cst, ok := bo.Y.(*ssa.Const); ok && cst.Value != nil && constant.Compare(cst.Value, token.EQL, addOnly) {
 								// the edge where the AddOnly bit is SET is the non-equal edge
-								for _, s := range iff.Block().Succs {
-									if s != eq {
-										c.cutEdge(iff.Block(), s)
-									}
-								}
+								d.cutNotEqual(c)
 							}
 						}
 						continue
@@ -547,7 +560,7 @@ func (m *Model) ruleCAS(r *Results) {
 					}
 					if otherSide != nil {
 						if ok, why := m.casScanCell(otherSide, K); ok {
-							c.cutEdge(iff.Block(), eq)
+							d.cutEqual(c)
 							sinks = append(sinks, "comparison with the row's cas")
 						} else {
 							problems = append(problems, why)
@@ -629,12 +642,36 @@ func (m *Model) sqlCasGuard(s *SQLSite, K *ssa.Function, c *cut, isP func(ssa.Va
 	ev := newStrEval(m)
 	reach := entryReach(K, c)
 	ev.liveEdge = func(pred, blk *ssa.BasicBlock) bool {
-		return reach[pred.Index] && !c.edges[edge{pred.Index, blk.Index}]
+		if !reach[pred.Index] || c.edges[edge{pred.Index, blk.Index}] {
+			return false
+		}
+		// pred may be a threaded decision block: the transfer pred->blk is live only if some
+		// way of entering pred still allows it
+		if phi, _ := phiIf(pred); phi != nil {
+			live := false
+			for i, pp := range pred.Preds {
+				if !reach[pp.Index] || c.edges[edge{pp.Index, pred.Index}] {
+					continue
+				}
+				if c.triples[[3]int{pp.Index, pred.Index, blk.Index}] {
+					continue
+				}
+				if forced, ok := constBoolOutcome(pred, i); ok && forced != blk {
+					continue
+				}
+				live = true
+			}
+			return live
+		}
+		return true
 	}
 	if !reach[s.Call.Block().Index] {
 		return false, problems
 	}
 	texts, ok := ev.eval(q, topFrame(K))
+	if os.Getenv("RL_DEBUG") != "" {
+		fmt.Fprintf(os.Stderr, "DEBUG sqlCasGuard %s: cut edges=%v triples=%v reach=%v texts=%q\n", m.declName(K), c.edges, c.triples, reach, texts)
+	}
 	if !ok || len(texts) == 0 {
 		return false, append(problems, "cannot enumerate the statement variants")
 	}
